@@ -231,6 +231,31 @@ fn explore(ctx: &Ctx, rep: &mut Report) {
         return;
     }
     rep.merge(r);
+    // (1b) wide families: many *sibling* collections at small real depth, in one document or across a stream. A
+    // validator whose nesting counter is not restored on every exit path (an early return for `[]` / `{}`, a counter
+    // that is not reset at `---`) drifts with the number of siblings and starts rejecting shallow documents.
+    let mut wide: Vec<(String, Vec<u8>)> = Vec::new();
+    for n in [3usize, 126, 127, 128, 129, 130, 200, 1000] {
+        for item in ["[]", "{}", "[ ]", "{ }", "[a]", "{k: v}", "[[]]", "{k: {}}", "\"\"", "a"] {
+            wide.push((format!("block-seq/{item}/{n}"), (0..n).map(|_| format!("- {item}\n")).collect::<String>().into_bytes()));
+            wide.push((format!("block-map/{item}/{n}"), (0..n).map(|i| format!("k{i}: {item}\n")).collect::<String>().into_bytes()));
+            wide.push((format!("flow-seq/{item}/{n}"), format!("[{}]\n", vec![item; n].join(", ")).into_bytes()));
+            wide.push((format!("flow-map/{item}/{n}"), format!("{{{}}}\n", (0..n).map(|i| format!("k{i}: {item}")).collect::<Vec<_>>().join(", ")).into_bytes()));
+            wide.push((format!("stream/{item}/{n}"), (0..n).map(|_| format!("--- {item}\n")).collect::<String>().into_bytes()));
+            wide.push((format!("stream-end/{item}/{n}"), (0..n).map(|_| format!("---\nk: {item}\n...\n")).collect::<String>().into_bytes()));
+        }
+        wide.push((format!("records/{n}"), (0..n).map(|i| format!("- name: r{i}\n  labels: {{}}\n  ports: []\n")).collect::<String>().into_bytes()));
+        wide.push((format!("nested-records/{n}"), format!("items:\n{}tail: [{{}}, []]\n", (0..n).map(|i| format!("  - id: {i}\n    tags: []\n")).collect::<String>()).into_bytes()));
+    }
+    let r = par_range_in(ctx, "wide-siblings", wide.len() as u64, 4, |i, rep| {
+        let (name, text) = &wide[i as usize];
+        rep.input();
+        rep.distinct(name);
+        wellformed(text, &[], ygen::Brk::Lf, ygen::Wrap::None, "wide-siblings", rep);
+    });
+    let mut r = r;
+    r.mark_exhaustive("wide-siblings", "{3,126..130,200,1000} sibling items (empty / whitespace-only / non-empty flow collections, scalars) as block sequence, block mapping, flow sequence, flow mapping, multi-document stream, and record lists; all must be accepted");
+    rep.merge(r);
     // (2) token strings
     let maxlen = ctx.pick(4, 5);
     let max_us = Mutex::new(0u128);
